@@ -75,6 +75,7 @@ PROPS = {
         # -n = number of fresh processes whose complete name→number maps are compared
         "streams": [{"stream": "tables", "profile": "all", "quick": 5, "thorough": 20, "thorough_seeds": 1, "corpus": "C12", "timeout": 900}],
         "hook": _c12_hook,
+        "hook_on_build_failure": True,   # a duplicate number is a Go compile error: the hook still names the entry
         "exhaustive": True,
         "rule": "finite: all five tables × every entry, every alias key, every Info row, every oracle source — decided completely by kernel evaluation and re-observed on the compiled package",
         "trusted": [
